@@ -75,6 +75,40 @@ def run(ctx, R):
                      "tag dispatch has an explicit arm for %s but none for %s (arms: %s): a list written as a string and the same list built from "
                      "cons cells take different paths here" % (side, other, sorted(tags)), "%s (line %s)" % (F.where(p), m["ln"]))
             R.sample({"fn": short(p), "line": m["ln"], "names": side, "tags": sorted(tags)})
+    # ---- sibling agreement inside compare_pstr_slices: every TailIndex(..) handed back for slice N must be
+    # computed from slice N's scanned tail AND slice N's offset inside its first cell (a suffix view such as
+    # [_,_,_|T] of "abcdefgh" is not cell-aligned); compare/3, ==/2, =/2 and head unification consume it.
+    cps = F.find("machine::heap::compare_pstr_slices")
+    ch = F.hir(cps)
+    params = [q.get("name") for q in ch["params"]]
+    origin = {}   # local -> (set of slice params, is_tail, is_align)
+
+    def locals_of(e):
+        return {res_name(x) for x in walk(e) if x["k"] == "Path" and "local" in (x.get("res") or {})}
+
+    for n in walk(ch["body"]):
+        if n["k"] == "Let" and n["pat"]["k"] == "PBind" and "init" in n:
+            ls = locals_of(n["init"])
+            src = {l for l in ls if l in params}
+            for l in ls:
+                if l in origin:
+                    src |= origin[l][0]
+            is_tail = any(x["k"] == "Call" and "f" in x and x["f"]["k"] == "Path" and res_name(x["f"]) == "find_tail" for x in walk(n["init"])) or \
+                any((x.get("resolved") or "").endswith("scan_slice_to_str") for x in walk(n["init"]) if x["k"] == "Call")
+            is_align = any(x["k"] == "MethodCall" and x["name"] == "align_offset" for x in walk(n["init"]))
+            origin[n["pat"]["name"]] = (src, is_tail, is_align)
+    n_tail = 0
+    for n in walk(ch["body"]):
+        if n["k"] == "Call" and (n.get("ctor") or "").endswith("PStrContinuable::TailIndex"):
+            n_tail += 1
+            used = locals_of(n)
+            tails = {s for l in used if l in origin and origin[l][1] for s in origin[l][0]}
+            aligns = {s for l in used if l in origin and origin[l][2] for s in origin[l][0]}
+            R.ob("C20:pstr-tail-index@%d" % (n["ln"] - F.items[cps]["line"]), bool(tails) and tails == aligns,
+                 "TailIndex is computed from the scanned tail of %s and the cell offset of %s: the tail cell of an unaligned string view is off by "
+                 "one cell when the offset of the same slice is not added (siblings add it)" % (sorted(tails) or "nothing", sorted(aligns) or "nothing"),
+                 "%s (line %s)" % (F.where(cps), n["ln"]))
+    R.floor("TailIndex constructions in compare_pstr_slices", n_tail, 4)
     R.floor("tag dispatches naming both list spellings", n_both, 35)
     R.floor("one-sided dispatches examined", n_one, 8)
     R.notes.append("both-sided sites: %d, one-sided sites: %d, exceptions used: %s" % (n_both, n_one, sorted(used)))
